@@ -33,6 +33,7 @@ pub fn op_kind(op: &Op) -> &'static str {
         Op::Update { .. } => "update",
         Op::Repos { .. } => "reposition",
         Op::IncTa { .. } => "inc_wrong_array",
+        Op::InitTa { .. } => "init_tick_array_again",
         Op::CollectFees { .. } => "collect_fees",
         Op::CollectProtocol { .. } => "collect_protocol",
         Op::Clock(_) => "clock",
